@@ -7,7 +7,7 @@ two stray single combos with symbolic presence are added.  The real fmt MIR runs
 opaque NUM(w) segments, model S4) is fed to the real <HandRange as FromStr>::from_str MIR; z3 decides per path that
 the parsed map equals the original slot for slot with bit-identical weights (C06) and that the emitted token sequence
 is canonical (C17)."""
-import time, copy
+import time, copy, os
 import z3
 import mirx
 from mlib import *
@@ -192,7 +192,11 @@ def worker(args):
         paths = run_fmt(M, B)
         out['fmt_paths'] = len(paths)
 
+        stop_file = os.path.join(os.path.dirname(mir), 'stop-on-first-counterexample')
+
         def note(ob, key, pc, extra=None, status='sat', model=None):
+            if status == 'sat' and key != 'weight=neg-zero':
+                open(stop_file, 'a').close()      # a counterexample exists: the other workers need not finish their exploration
             d = dict(ob=ob, key=key, status=status, cfg=cfg)
             if model is None and status == 'sat':
                 c, model = sat_model(pc)
@@ -202,6 +206,9 @@ def worker(args):
                 d['detail'] = extra
             out['bad'].append(d)
         for P in paths:
+            if os.path.exists(stop_file):
+                out['stopped_early'] = True
+                break
             if P['panic']:
                 note('format-no-panic', 'fmt:panic', P['pc'], P['panic'])
                 continue
